@@ -4,6 +4,7 @@ import (
 	"fmt"
 	"reflect"
 	"strconv"
+	"sync"
 	"unsafe"
 
 	"github.com/philpearl/plenc"
@@ -93,13 +94,18 @@ func guard(f func() string) (out string) {
 	defer func() {
 		if r := recover(); r != nil {
 			out = "panic"
+			lastPanicMu.Lock()
 			lastPanic = fmt.Sprint(r)
+			lastPanicMu.Unlock()
 		}
 	}()
 	return f()
 }
 
-var lastPanic string
+var (
+	lastPanic   string
+	lastPanicMu sync.Mutex
+)
 
 func renderAny(c interface{}) string {
 	if cd, ok := c.(plenccodec.Codec); ok {
@@ -219,11 +225,11 @@ func renderCodecD(c plenccodec.Codec, d int) string {
 }
 
 type opCtx struct {
-	cfg  string
-	td   *TyDef
-	tag  string
-	rt   reflect.Type
-	p    *plenc.Plenc
+	cfg string
+	td  *TyDef
+	tag string
+	rt  reflect.Type
+	p   *plenc.Plenc
 }
 
 func parseCtx(s *Sexp) (*opCtx, error) {
@@ -339,6 +345,8 @@ func execOp(s *Sexp) string {
 		return execInternSched(s)
 	case "sched":
 		return execSched(s)
+	case "regtrace":
+		return execRegTrace(s)
 	case "desccalls":
 		return execDescCalls(s)
 	case "descjson":
